@@ -301,13 +301,16 @@ func c19RoundTrip(r *run.Run) {
 				if menu[k].Type == 8 || menu[k].Type == 6 && gpos || len(menu[k].Sub()) > 1 && !gpos {
 					c.Skip("no syntax for this lookup type / for several subtables of GSUB 1-4")
 				}
+				if strings.Contains(menu[k].Name, "has no mark glyph") {
+					c.Skip("the language numbers mark classes by the marks that use them: a class without marks has no notation")
+				}
 				subs := menu[k].Sub()
 				desc = menu[k].Name
 				if gpos {
 					// several subtables in one GPOS lookup ("||"): every menu entry of the same type
 					if k2 := c.Choose(len(menu)+1, "second subtable"); k2 > 0 {
-						if menu[k2-1].Type != menu[k].Type {
-							c.Skip("different lookup type")
+						if menu[k2-1].Type != menu[k].Type || strings.Contains(menu[k2-1].Name, "has no mark glyph") {
+							c.Skip("different lookup type / no notation")
 						}
 						subs = append(subs, menu[k2-1].Sub()...)
 						desc += " || " + menu[k2-1].Name
